@@ -133,7 +133,11 @@ class ExpandedTraceback:
         self.full_traceback = full_traceback
         self.hide_filenames = hide_filenames
         self.show_filenames = show_filenames
-        self.line_number = traceback.extract_tb(exc_info[2])[-1][1]
+        # Prefer the innermost frame of the student's own files; the raise itself
+        # may happen inside Pedal (e.g., the mocked import or a blocked builtin).
+        frames = traceback.extract_tb(exc_info[2])
+        student_frames = [frame for frame in frames if frame[0] in show_filenames]
+        self.line_number = (student_frames or frames)[-1][1]
         self.original_code_lines = original_code_lines
         self.student_files = student_files
 
